@@ -270,6 +270,22 @@ fn truncate_bytes_with_reference<'a>(src: &'a [u8], compare: &'_ [u8], threshold
     &src[0..ind]
 }
 
+#[cfg(feature = "verif-hooks")]
+#[allow(missing_docs)]
+pub(crate) mod verif {
+    //! Verification hooks: wrappers around private functions
+    pub fn estimate_message(bursts: &[&[u8]]) -> (Vec<u8>, Vec<u8>, Vec<u8>) {
+        let (a, b, c) = super::estimate_message(bursts.iter());
+        (a.to_vec(), b.to_vec(), c.to_vec())
+    }
+    pub fn bit_vote_detect(b0: u8, b1: u8) -> (u8, u32) {
+        super::bit_vote_detect(b0, b1)
+    }
+    pub fn bit_vote_correct(b0: u8, b1: u8, b2: u8) -> (u8, u32) {
+        super::bit_vote_correct(b0, b1, b2)
+    }
+}
+
 #[cfg(test)]
 mod tests {
     use crate::MessageDecodeErr;
